@@ -10,6 +10,14 @@ A scenario is JSON-able: {"start_id": int, "steps": [step, ...]} with steps
                                         error code names the task (skipped when that task has not sent anything)
   ["raw", hex]                          the peer's next datagram (any bytes)
   ["req", protocol, method, call_id]    the peer's next datagram: a request (no server registered)
+  ["preq", protocol, method, call_id, serial]
+                                        the peer's next datagram: a REQUEST of its own, body P<call_id>.<serial>, to the
+                                        server registered under `protocol` (server i has PROTOCOL_ID 0x50+i) or to
+                                        nobody; `method` tells the server's handle() what to do (see FakeServer.handle):
+                                        method & 15 = 1 return b"ack:"+body | 2 raise RMCError | 3 TypeError | 4 KeyError |
+                                        5 ValueError, (method >> 4) & 15 = loop iterations it takes first (the receive
+                                        loop is suspended in the handler meanwhile). The call id is the peer's own
+                                        numbering: it may equal the id of one of our outstanding calls.
   ["eof"]                               the peer closes: recv() raises anyio.EndOfStream
   ["close"] | ["disconnect"] | ["cleanup"]   local closure via RMCClient.close()/disconnect()/__aexit__
 Optional scenario keys:
@@ -18,7 +26,12 @@ Optional scenario keys:
                            ["idle"] (returns once no call is outstanding on the connection) | ["forever"]
   "spawn_close": 1         every local closure runs in a task of its own (as a real owner would: the director
                            must not depend on the closure returning)
-Log lines of the hooks: `hookret` / `hookraise` at the moment a logout hook returns / raises.
+  "reply_yields": k        the transport's send() of anything that is not a caller's request (the answers to the peer's
+                           requests) takes k loop iterations
+Log lines of the hooks: `hookret` / `hookraise` at the moment a logout hook returns / raises; of the request handlers:
+`handlerret 1` / `handlerret 0` at the moment a server's handle() returns / raises. `sim.dispatches` = every entry of a
+handle() (op index, server, method, body it was given); `sim.sends_at` = everything the client sent that is not a
+caller's request (op index, datagram): the answers to the peer's requests.
 Every atomic section that the model has an op for appends one line to the op log *at the moment
 it happens*; asyncio runs the code between two awaits atomically, so the log order is the real
 interleaving. The log is what the Lean model replays.
@@ -67,6 +80,17 @@ def ans_code(task, serial):
     return 0x20000 + task * 64 + serial
 
 
+def preq_body(call_id, serial):
+    return b"P%d.%d" % (call_id, serial)
+
+
+def build_preq(protocol, method, call_id, serial):
+    return rmc.RMCMessage.request(S, protocol, method, call_id, preq_body(call_id, serial)).encode()
+
+
+HANDLER_EXC = {3: TypeError, 4: KeyError, 5: ValueError}
+
+
 def build_ans(call_id, task, kind, serial, protocol=10, method=1):
     """the peer's answer to the request message sent by `task` (echoes that request's call id)"""
     import struct
@@ -90,7 +114,20 @@ class FakeServer:
         self.sim, self.idx, self.hook = sim, idx, hook
         self.PROTOCOL_ID = 0x50 + idx
     async def handle(self, client, method, input, output):
-        pass
+        sim = self.sim
+        body = input.readall()
+        sim.dispatches.append((len(sim.oplog) - 1, self.idx, method, body.hex()))
+        kind = method & 15
+        for _ in range((method >> 4) & 15):
+            await anyio.sleep(0)
+        if kind == 2:
+            sim.log("handlerret 0")
+            raise common.RMCError("Core::AccessDenied")
+        if kind in HANDLER_EXC:
+            sim.log("handlerret 0")
+            raise HANDLER_EXC[kind]("handler of server %d" % self.idx)
+        output.write(b"ack:" + body)
+        sim.log("handlerret 1")
     async def logout(self, client):
         sim = self.sim
         sim.hook_entries.append((len(sim.oplog) - 1, self.idx))
@@ -151,6 +188,9 @@ class FakePRUDP:
                 await anyio.sleep(0)
         else:
             sim.other_sends.append(data)
+            sim.sends_at.append((len(sim.oplog) - 1, data.hex()))
+            for _ in range(sim.sc.get("reply_yields", 0)):
+                await anyio.sleep(0)
     def _kick(self):
         if self.wakeup is not None:
             self.wakeup.set()
@@ -198,6 +238,8 @@ class Sim:
         self.cleanup_status = "none"    # none | running | returned | raised
         self.closures = []      # outcome of every local closure: [kind, "returned" | "raised <type>" | "running"]
         self.skipped_ans = 0
+        self.dispatches = []    # (oplog index of the op during which handle() of a server was entered, server idx, method, body hex)
+        self.sends_at = []      # (oplog index, datagram hex) of everything sent that is not a caller's request
     def log(self, line):
         self.oplog.append(line)
     def eof(self):
@@ -298,6 +340,8 @@ async def run_scenario(sc):
                 fake.inbox.append((bytes.fromhex(st[1]) if st[1] != "-" else b"", None)); fake._kick()
             elif k == "req":
                 fake.inbox.append((rmc.RMCMessage.request(S, st[1], st[2], st[3], b"").encode(), None)); fake._kick()
+            elif k == "preq":
+                fake.inbox.append((build_preq(st[1], st[2], st[3], st[4]), None)); fake._kick()
             elif k == "eof":
                 fake.inbox.append(EOF); fake._kick()
             elif k in ("close", "disconnect", "cleanup"):
@@ -307,7 +351,10 @@ async def run_scenario(sc):
                     await _closer(sim, client, k)
             else:
                 raise ValueError(st)
-        for _ in range(FINAL_YIELDS):
+        # let everything settle: the receive loop waits in every request handler and in every slow answer send
+        ry = sc.get("reply_yields", 0)
+        slow = sum(((st[2] >> 4) & 15) + ry + 1 for st in sc["steps"] if st[0] == "preq") + sum(ry + 1 for st in sc["steps"] if st[0] == "req")
+        for _ in range(FINAL_YIELDS + slow):
             await anyio.sleep(0)
         # white-box snapshot before tearing the tasks down
         sim.final = {
